@@ -196,6 +196,21 @@ func preciseLiterals() []string {
 
 // Faithful checks, for every text the parser accepts, that the model denotes the text: emit(parse(t)) parses again,
 // to an equal model, emits the same text again, and contains the content tokens of t.
+// rangeForms: variable-length ranges with every spelling of an integer in either bound position
+func rangeForms() []string {
+	var out []string
+	bounds := []string{"", "2", "0x2", "0o2", "02", "0", "99999999999999999999", "5"}
+	for _, a := range bounds {
+		for _, b := range bounds {
+			out = append(out, "match (n)-[r:E*"+a+".."+b+"]->(m) return r")
+		}
+		if a != "" {
+			out = append(out, "match (n)-[r:E*"+a+"]->(m) return r", "match p = (n)-[*"+a+"..]-(m) return p")
+		}
+	}
+	return out
+}
+
 func Faithful(args []string) {
 	fs := flag.NewFlagSet("front faithful", flag.ExitOnError)
 	outp := fs.String("out", "trace.ndjson", "")
@@ -215,6 +230,14 @@ func Faithful(args []string) {
 	}
 	for _, q := range preciseLiterals() {
 		texts = append(texts, fuzzInput{text: q, class: "precise-literal"})
+	}
+	for _, q := range rangeForms() {
+		texts = append(texts, fuzzInput{text: q, class: "range-form"})
+	}
+	for _, q := range caseVariantSources {
+		for _, v := range caseVariants(q) {
+			texts = append(texts, fuzzInput{text: v, class: "case-variant"})
+		}
 	}
 	if *sk != "" {
 		for _, s := range tr.ReadLines[Skeleton](*sk) {
